@@ -205,7 +205,7 @@ def patch():
         need = shape[0] * shape[1] * itemsize
         if builtins.bool(need > f.size):
             raise ValueError("mmap length is greater than file size")
-        fs().trace.append(("memmap", str(filename), shape))
+        fs().mutate("memmap", str(filename), mutating=False)
         return npfile_view(f.content, shape)
     sglx._NPSglx.memmap = memmap
     return spikeglx, neuropixel
